@@ -42,7 +42,7 @@ spec fn udp_err<const N: usize>(c: udp__AEADCipherCodec<N>, ctx: udp__Context<N>
 }
 
 //@@ octo-squirrel/src/codec/shadowsocks/udp.rs:34-36  struct AEADCipherCodec  sha=f8e930065e2a4dbb
-struct udp__AEADCipherCodec<const N: usize> {
+pub struct udp__AEADCipherCodec<const N: usize> {
     kind: CipherKind,
 }
 
@@ -132,10 +132,10 @@ impl<const N: usize> udp__AEADCipherCodec<N> {
 }
 
 //@@ octo-squirrel/src/codec/shadowsocks/udp.rs:343-343  type SessionPacket  sha=2a9212c2fdd9b1f5
-type udp__SessionPacket<const N: usize> = (BytesMut, Address, udp__Session<N>);
+pub type udp__SessionPacket<const N: usize> = (BytesMut, Address, udp__Session<N>);
 
 //@@ octo-squirrel/src/codec/shadowsocks/udp.rs:345-348  struct SessionCodec  sha=3689553d9c2c80f8
-struct udp__SessionCodec<'a, const N: usize> {
+pub struct udp__SessionCodec<'a, const N: usize> {
     context: udp__Context<'a, N>,
     cipher: udp__AEADCipherCodec<N>,
 }
@@ -178,7 +178,7 @@ impl<'a, const N: usize> udp__SessionCodec<'a, N> {
 }
 
 //@@ octo-squirrel/src/codec/shadowsocks/udp.rs:371-377  struct Context  sha=1530ebc6b918883e
-struct udp__Context<'a, const N: usize> {
+pub struct udp__Context<'a, const N: usize> {
     stream_type: Mode,
     user_manager: Option<Arc<ServerUserManager<N>>>,
     key: &'a [u8],
@@ -200,11 +200,11 @@ impl<const N: usize> udp__Context<'_, N> {
 }
 
 //@@ octo-squirrel/src/codec/shadowsocks/udp.rs:390-396  struct Session  sha=f14d3bc94bb4d5cf
-struct udp__Session<const N: usize> {
-    client_session_id: u64,
-    server_session_id: u64,
-    packet_id: u64,
-    user: Option<Arc<ServerUser<N>>>,
+pub struct udp__Session<const N: usize> {
+    pub client_session_id: u64,
+    pub server_session_id: u64,
+    pub packet_id: u64,
+    pub user: Option<Arc<ServerUser<N>>>,
 }
 
 //@@ octo-squirrel/src/codec/shadowsocks/udp.rs:398-406  impl Session  sha=79c481f875a751f4
@@ -256,7 +256,7 @@ fn to_inbound_recv(item: (DatagramPacket, SocketAddr), verif_arg2: &Address, sen
     }
 
 //@@ octo-squirrel-client/src/client/shadowsocks.rs:147-151  mod udp / struct DatagramPacketCodec  sha=a064ded263e50c89
-struct DatagramPacketCodec<'a, const N: usize> {
+pub struct DatagramPacketCodec<'a, const N: usize> {
         codec: udp__SessionCodec<'a, N>,
         session: udp__Session<N>,
         filter: PacketWindowFilter,
